@@ -6,15 +6,51 @@ ROOT = os.path.dirname(os.path.dirname(os.path.abspath(__file__)))
 
 # id -> (technique, level text, level note, design_ref)
 CLAIMED = {
-    "C08": (
-        "exhaustive enumeration + proptest sequences against an independent doc/int.md codec model",
-        "Generated-input search: integers enumerated (quick: 8.5M incl. all |v|<2^21 and every length boundary; thorough: all 2^32), "
-        "decoder over all byte strings of length 0..3 and the first/last-exhaustive boundary-middle strings of length 4/5, both against an "
-        "independent encoder/decoder written from doc/int.md; proptest field sequences written into Vec/ArrayVec/slices of every capacity "
-        "with canaries and read back, every strict prefix read. Exhaustive sub-spaces are settled; sequences are sampled.",
-        "Trusts the harness's doc/int.md model; sequence part is sampling, not proof.",
-        "DESIGN.md 2/C08",
-    ),
+    "C01": ("stateful PBT (proptest op histories over a two-endpoint simulation) vs reference model of submitted chunks; bounded exhaustive schedule DFS in thorough",
+        "Generated histories of application calls and network faults (loss, duplication, reordering, delay, clock) for 0.6+token, 0.6 without token and 0.7, incl. dedicated sequence-wrap histories; every delivered vital chunk must be the next element of the model's submitted list, non-vital chunks must have been sent, Ready at most once and after the acceptor answered. Thorough adds a complete DFS over deliver/drop/dup/tick schedules of a 3-chunk scenario using the clone hook. Sampling of histories: evidence, not proof.",
+        "Environment enforces the property's assumptions (<500 unacked, in-flight datagrams expire after 400 sequence numbers, iterators drained). Uses hooks verif_clone/verif_summary.", "DESIGN.md 2/C01"),
+    "C02": ("stateful PBT: adversarial generated prefix + harness-executed fair suffix; fuel-based termination oracle; deadline invariant after every op",
+        "Same simulation as C01 with chunk sizes over the whole accepted range; after every op the reported deadline must be active while anything is queued/unacked/mid-handshake; every library call runs under a callback-fuel budget (non-termination is reported deterministically); then <= 40 fair rounds (deliver all FIFO, tick at deadline) must reach quiescence: Ready seen, everything delivered and acknowledged, nothing queued.",
+        "Bounded liveness under one fair scheduler only; fuel bound 50000 callback invocations per call.", "DESIGN.md 2/C02"),
+    "C03": ("PBT non-interference: foreign datagram fed to a clone, fingerprint equality + twin-run equivalence over a generated suffix",
+        "Generated (prefix history stopping at every handshake stage or online with queued/unacked data, target side, 1..3 foreign datagrams of every packet kind written with a wrong token / peer datagrams re-written with a wrong token / mutated / random, suffix ops, adversarial secure_random script). Feeding the foreign datagram must yield no event, no outgoing datagram and an identical complete-state fingerprint; the run with and without it must be indistinguishable through the suffix; acceptor tokens must never be reserved values.",
+        "State completeness rests on the Debug rendering of the private state (verif_fingerprint hook); 0.6-without-token has no agreed token and is out of scope.", "DESIGN.md 2/C03"),
+    "C04": ("stateful PBT over valid API call histories; oracle = library's own reader with collecting warning sink + reference model of queued chunks; exhaustive single-chunk length sweep",
+        "Every datagram handed to the send callback in generated histories (lengths 0..5000, blocks of hundreds of tiny chunks without flush, multi-datagram resends, connless, disconnect reasons, sequence wrap) must be <= 1400 bytes, parse without error or warning under the true token mode, carry exactly num_chunks chunks, each bit-identical to the queued payload with the right sequence number; refused sends must leave the connection as live as before (differential fair-suffix on clones); no call may panic. Plus every single chunk length 0..1500/2100 for all variants sent, lost and resent.",
+        "Parses with the library's own reader as the property states.", "DESIGN.md 2/C04"),
+    "C07": ("exhaustive short inputs + proptest structured inputs; differential vs bundled C++ reference and an independent bit-level model from doc/huffman.md; canary-guarded buffers at every capacity",
+        "Round trip for both output forms, exact compressed_len, byte identity with the C++ reference, one-directional decoder agreement with the reference, every capacity for short inputs, mutated/truncated/extended/garbage streams, generated frequency tables (depth <= 24), canaries around all output windows.",
+        "Decoder termination is only observable through the wall-clock watchdog (no callback to attach fuel to). Trusts the C++ reference inside its int domain.", "DESIGN.md 2/C07"),
+    "C08": ("exhaustive enumeration + proptest sequences against an independent doc/int.md codec model",
+        "Integers enumerated (quick: 8.5M incl. all |v|<2^21 and every length boundary; thorough: all 2^32), decoder over all byte strings of length 0..3 and the first/last-exhaustive boundary-middle strings of length 4/5, both against an independent encoder/decoder written from doc/int.md; proptest field sequences written into Vec/ArrayVec/slices of every capacity with canaries and read back, every strict prefix read.",
+        "Trusts the harness's doc/int.md model; sequence part is sampling.", "DESIGN.md 2/C08"),
+    "C09": ("exhaustive small universe + proptest random pairs; round trip through both wire forms, independent doc-based wire reader, differential vs bundled DDNet C++ reference",
+        "All pairs (A,B) over a small key/length/value universe exhaustively plus random pairs up to 1024 items / 64 KiB through RawBuilder and Builder (ordinal + UUID types, types >= 0x8000, pre-agreed and explicit sizes): apply(create(A,B)) == B incl. crc and no warnings, both wire forms, create(A,A), reference builder word-for-word equality, reference delta applied here yields B.",
+        "Reference comparison restricted to the domain where the C++ does not abort (types < 0x8000, static sizes only for types < 64).", "DESIGN.md 2/C09"),
+    "C10": ("model-based PBT: builder programs vs BTreeMap model, wire round trips, recycle chains",
+        "Generated builder programs (ordinal and 0..40 UUID types, duplicates, over-limit adds) predicted by a model; snapshot checked directly, after both wire forms, after recycle + second program, and for snapshots obtained by applying a delta: items(), item() for every key incl. UUID types, absent keys, crc, re-serialization.",
+        "Sampling.", "DESIGN.md 2/C10"),
+    "C12": ("exhaustive permutations/interleavings for small part counts + proptest schedules; reference model of the receiver contract; twin-run without old-tick messages",
+        "Every permutation and single duplication of up to 5 (7) parts, every interleaving of an older and a newer transfer, every data length 0..28800, and generated multi-transfer schedules with duplicates and hostile old-tick messages: exactly-once hand-out with original tick/base/crc/data, no warning on consistent transfers, old ticks never complete or disturb.",
+        "Sampling above the exhaustive bounds.", "DESIGN.md 2/C12"),
+    "C13": ("closed-loop stateful PBT (server storage API + lossy channel + client manager) vs ground-truth world states",
+        "Generated world histories (ordinal and UUID items, multi-part deltas, crc-neutral changes) and per-message fates (deliver, drop, duplicate, delay) for snapshots and acks incl. acks for dropped snapshots and long ack blackouts; every accepted snapshot must equal the sender's snapshot for that tick item for item and in crc, errors never advance ack_tick, no panic on either side; a second section corrupts crc fields.",
+        "Sender follows server/src/main.rs's call sequence. One open known finding restricts UUID item sizes.", "DESIGN.md 2/C13"),
+    "C14": ("spec-driven PBT: run-time interpreter of the four JSON protocol descriptions generates canonical encodings and single constraint violations for every codec; exhaustive boundary and id sweeps",
+        "All 379 message/object codecs of the four protocol crates: every (codec, member, boundary value) exhaustively, all ids, plus generated value vectors with mutations and raw byte/word streams, checked against an independent model of the member kinds (accept+re-encode identical / excess-data warning / reject / no panic).",
+        "Model written from gamenet/generate/datatypes.py and doc/int.md; 4 open known findings (bool members of snapshot objects) exclude only the encode() word comparison for those objects.", "DESIGN.md 2/C14"),
+    "C15": ("exhaustive size/tick/header sweeps + proptest chunk sequences and typed world histories; round trip through in-memory demo files",
+        "Every compressed size 1..300 x chunk kind, tick gaps around the inline-delta limit, every header string length; generated raw chunk sequences (payloads aimed at the 29/30, 255/256, 65535 boundaries) and typed ddnet world histories across key-frame intervals with refused ticks and failed snaps: reader returns the same sequence / object sets, no warnings, refusals do not panic and leave the recording usable.",
+        "One open known finding restricts UUID object sizes in typed histories.", "DESIGN.md 2/C15"),
+    "C16": ("independent datafile/map writer + exhaustive single-field corruption, truncation, structural mutation, random bytes; totality oracle with iterator fuel; exact read-back for well-formed files",
+        "Well-formed v3/v4/v4-crude files (raw, hand-rolled stored-deflate and libz data) read back exactly through three open paths; every header/type/offset/size/item-header field set to ~60 boundary values, every truncation, multi-mutations, random bytes, and for maps every item word set to ~40 values: open + every accessor returns value or error, never panics or loops.",
+        "Uncompressed sizes above 16 MiB are not read (resource exhaustion is out of scope).", "DESIGN.md 2/C16"),
+    "C17": ("metamorphic PBT over read-callback fragmentations + independent doc-based tick/position model; exhaustive 2- and 3-piece splits of a fixed all-kinds stream",
+        "Generated server histories (all message kinds, extensions, implicit/explicit ticks, wraps) read in one piece, byte by byte, under generated schedules and every two-piece split must give identical items; items must nest in strictly increasing ticks equal to the doc pseudo-code's numbers; positions/inputs equal running wrapping sums; truncated/mutated/random streams: items or error, no panic, fuel on callbacks.",
+        "Uses the verif module hook exposing the incremental reader.", "DESIGN.md 2/C17"),
+    "C18": ("model server + exhaustive truncations/byte patches/numeric sweeps + proptest hostile datagrams; exhaustive arrival sequences and generated merge schedules vs model",
+        "All thirteen response kinds: every truncation, byte patch and boundary value of every numeric field, generated hostile datagrams: value or nothing, never a panic, returned data inside the datagram and sane. Merging: every arrival sequence up to length 5-7 and generated schedules up to 64 parts: complete iff every part merged, result equals the model's client set.",
+        "One open known finding (merge does not record received parts) removes repeated parts from generated schedules.", "DESIGN.md 2/C18"),
 }
 
 NOT_BUILT_REASON = "check not built yet in this commit (design in DESIGN.md section 2); will be claimed once its module exists"
